@@ -180,6 +180,110 @@ func (p *c04) RunCase(ctx *runner.Ctx) runner.CaseResult {
 			x.r.Counters["pages"] += w.pages
 		}
 	}
+	// interleaved walks (no write in between): two walks of ONE request with different Limits advanced in
+	// turns, a forward and a backward walk of one Query advanced in turns, and a "previous page" step - the
+	// LastEvaluatedKey of a forward page used as ExclusiveStartKey of the BACKWARD query. Every walk must still
+	// produce its own unpaginated sequence: a walk's position is carried by its key and by nothing else
+	type pager struct {
+		op    adapt.Op
+		limit int
+		cur   val.Item
+		items []val.Item
+		done  bool
+		pages int
+	}
+	step := func(pg *pager) string {
+		if pg.done {
+			return ""
+		}
+		q := pg.op
+		q.Limit, q.Start = pg.limit, pg.cur
+		got := cl.Do(q)
+		x.r.Evals++
+		pg.pages++
+		if got.Class != adapt.ClsOK {
+			pg.done = true
+			return fmt.Sprintf("page %d failed with %s", pg.pages, got.Class)
+		}
+		pg.items = append(pg.items, got.Items...)
+		pg.cur = got.LastKey
+		if got.LastKey == nil || pg.pages > len(t.Items)+5 {
+			pg.done = true
+		}
+		return ""
+	}
+	for pi := 0; pi < 8 && len(reqs) > 0; pi++ {
+		rq := reqs[r.Intn(len(reqs))]
+		base := cl.Do(rq.op)
+		if base.Class != adapt.ClsOK || len(base.Items) < 2 {
+			continue
+		}
+		a := &pager{op: rq.op, limit: 1 + r.Intn(2)}
+		second := rq.op
+		variant := "two-limits"
+		if rq.op.Kind == adapt.OpQuery && pi%2 == 1 {
+			second.Rev = !second.Rev
+			variant = "forward+backward"
+		}
+		bU := base.Items
+		if variant == "forward+backward" {
+			b2 := cl.Do(second)
+			if b2.Class != adapt.ClsOK {
+				continue
+			}
+			bU = b2.Items
+		}
+		b := &pager{op: second, limit: 1 + r.Intn(3)}
+		problem := ""
+		for !a.done || !b.done {
+			if p1 := step(a); p1 != "" {
+				problem = p1
+			}
+			if p2 := step(b); p2 != "" {
+				problem = p2
+			}
+		}
+		x.r.Counters["interleaved_walks"]++
+		x.fp(true, "%s|%s|interleaved|%s|L%d|L%d", adapter, rq.kind, variant, a.limit, b.limit)
+		if problem != "" || adapt.ItemsCanon(a.items) != adapt.ItemsCanon(base.Items) || adapt.ItemsCanon(b.items) != adapt.ItemsCanon(bU) {
+			x.viol("interleaved-walks-differ", variant+"/"+rq.op.Kind+featIdx(rq.op), fmt.Sprintf("[%s] %s: two walks advanced in turns (%s, Limits %d and %d) %s: walk A gave %s (unpaginated %s), walk B gave %s (unpaginated %s)", adapter, rq.kind, variant, a.limit, b.limit, problem, adapt.ItemsCanon(a.items), adapt.ItemsCanon(base.Items), adapt.ItemsCanon(b.items), adapt.ItemsCanon(bU)),
+				witness(rq.op, map[string]interface{}{"variant": variant, "limit_a": a.limit, "limit_b": b.limit}))
+			continue
+		}
+		// previous page: forward k pages, then the backward query from the same key
+		if rq.op.Kind == adapt.OpQuery && rq.op.Filter == "" {
+			rev := rq.op
+			rev.Rev = !rev.Rev
+			rU := cl.Do(rev)
+			f := &pager{op: rq.op, limit: 1 + r.Intn(3)}
+			k := 1 + r.Intn(3)
+			for i := 0; i < k && !f.done; i++ {
+				step(f)
+			}
+			if rU.Class == adapt.ClsOK && f.cur != nil && len(f.items) > 0 {
+				last := f.items[len(f.items)-1]
+				pos := -1
+				for i, it := range rU.Items {
+					if it.Canon() == last.Canon() {
+						pos = i
+					}
+				}
+				if pos >= 0 {
+					want := rU.Items[pos+1:]
+					bk := &pager{op: rev, limit: 1 + r.Intn(3), cur: f.cur}
+					for !bk.done {
+						step(bk)
+					}
+					x.r.Counters["previous_page_probes"]++
+					x.fp(true, "%s|%s|previous-page|k%d", adapter, rq.kind, k)
+					if adapt.ItemsCanon(bk.items) != adapt.ItemsCanon(want) {
+						x.viol("previous-page-differs", rq.op.Kind+featIdx(rq.op), fmt.Sprintf("[%s] %s: after %d forward pages (Limit %d) the backward query from the same key gave %s; the backward unpaginated result after that item is %s", adapter, rq.kind, k, f.limit, adapt.ItemsCanon(bk.items), adapt.ItemsCanon(want)),
+							witness(rq.op, map[string]interface{}{"pages_forward": k, "limit": f.limit, "start": f.cur}))
+					}
+				}
+			}
+		}
+	}
 	// deletion variants: replay the state on a fresh client for each probe
 	probes := 6
 	for pi := 0; pi < probes && len(reqs) > 0; pi++ {
